@@ -83,6 +83,10 @@ func (b *zzvBS) Get(ctx context.Context, c cid.Cid) (blocks.Block, error) {
 	return blocks.NewBlockWithCid(make([]byte, b.size[i]), c)
 }
 
+// zzvPresenceSize stands in for bsmsg.BlockPresenceSize under the engine (protobuf's proto.Size is outside
+// it): tag+length+CID bytes, tag+type. The value only feeds the work estimate of a HAVE / DONT_HAVE task.
+func zzvPresenceSize(c cid.Cid) int { return 2 + c.ByteLen() + 2 }
+
 type zzvTagger struct{}
 
 func (zzvTagger) TagPeer(peer.ID, string, int) {}
@@ -179,8 +183,21 @@ func zzvEntry(c cid.Cid, w zzvWant, cancel bool) bsmsg.Entry {
 	return bsmsg.Entry{Entry: wl.Entry{Cid: c, Priority: w.prio, WantType: zzvType(w.block)}, Cancel: cancel, SendDontHave: w.sendDH}
 }
 
-func zzvNondetWant() zzvWant {
-	return zzvWant{in: true, prio: verifrt.NondetI32("prio"), block: verifrt.NondetBool("wantBlock"), sendDH: verifrt.NondetBool("sendDontHave")}
+// zzvOpts selects what an entry varies. answers=false ("overflow" entry): the ledger is full or nearly full and
+// the message consists of wants only (priorities and block presence symbolic; want-block, no send-dont-have,
+// everything permitted, incremental) — the eviction order is the subject. answers=true: everything about the
+// entries, the filter, sizes and the engine switches is symbolic, with at most one want in the ledger before.
+type zzvOpts struct{ answers bool }
+
+func zzvBool(name string, symbolic, def bool) bool {
+	if symbolic {
+		return verifrt.NondetBool(name)
+	}
+	return def
+}
+
+func zzvNondetWant(o zzvOpts) zzvWant {
+	return zzvWant{in: true, prio: verifrt.NondetI32("prio"), block: zzvBool("wantBlock", o.answers, true), sendDH: zzvBool("sendDontHave", o.answers, false)}
 }
 
 // zzvLedger reads the peer's want-list back through the public accessor.
@@ -212,7 +229,13 @@ func zzvPopAll(e *Engine) (peer.ID, []*peertask.Task) {
 // cancels, an identity CID, an oversize CID; full or incremental) is taken in. Priorities, want types,
 // send-dont-have flags, block presence and sizes, the want-have replace threshold, the filter's verdict per CID
 // and the engine's sendDontHaves switch are symbolic.
-func HarnessC36Intake() {
+func HarnessC36Intake() { zzvIntake(zzvOpts{answers: true}) }
+
+// HarnessC36Overflow: the same step with a full (or nearly full) ledger and a message of new wants: who is
+// evicted, who is rejected.
+func HarnessC36Overflow() { zzvIntake(zzvOpts{}) }
+
+func zzvIntake(o zzvOpts) {
 	LIM := verifrt.Param("LIM", 2)
 	M := verifrt.Param("M", 2)
 	pool := zzvPool()
@@ -225,13 +248,19 @@ func HarnessC36Intake() {
 	var permitted [zzvN]bool
 	for i := range pool {
 		bs.present[i] = verifrt.NondetBool("present")
-		bs.size[i] = verifrt.NondetInt("size")
-		verifrt.Assume(bs.size[i] >= 1 && bs.size[i] <= 1<<20)
-		permitted[i] = verifrt.NondetBool("permitted")
+		bs.size[i] = 100
+		if o.answers {
+			bs.size[i] = verifrt.NondetInt("size")
+			verifrt.Assume(bs.size[i] >= 1 && bs.size[i] <= 1<<20)
+		}
+		permitted[i] = zzvBool("permitted", o.answers, true)
 	}
-	replace := verifrt.NondetInt("replaceSize")
-	verifrt.Assume(replace >= 0 && replace <= 1<<20)
-	sendDHs := verifrt.NondetBool("engineSendsDontHaves")
+	replace := 1024
+	if o.answers {
+		replace = verifrt.NondetInt("replaceSize")
+		verifrt.Assume(replace >= 0 && replace <= 1<<20)
+	}
+	sendDHs := zzvBool("engineSendsDontHaves", o.answers, true)
 	filter := func(_ peer.ID, c cid.Cid) bool {
 		i := zzvIdx(pool, c)
 		return i >= 0 && permitted[i]
@@ -241,13 +270,19 @@ func HarnessC36Intake() {
 	ctx := context.Background()
 
 	// ---- pre-state: pool[0..n0) wanted (and permitted)
-	n0 := verifrt.NondetRange("preWants", 0, limit)
+	lo, hi := 0, limit
+	if o.answers {
+		hi = 1 // (limit is at least 1)
+	} else if limit > 1 {
+		lo = limit - 1 // overflow entry: the ledger is full or has one free slot
+	}
+	n0 := verifrt.NondetRange("preWants", lo, hi)
 	var pre [zzvN]zzvWant
 	if n0 > 0 {
 		m1 := &zzvMsg{}
 		for i := 0; i < n0; i++ {
 			verifrt.Assume(permitted[i])
-			pre[i] = zzvNondetWant()
+			pre[i] = zzvNondetWant(o)
 			m1.entries = append(m1.entries, zzvEntry(pool[i], pre[i], false))
 		}
 		verifrt.Assert("C36.no-disconnect", !e.MessageReceived(ctx, p, m1))
@@ -257,7 +292,7 @@ func HarnessC36Intake() {
 			verifrt.Assert("C36.want-within-limit-is-recorded", l1[i].in && l1[i].prio == pre[i].prio && l1[i].block == pre[i].block)
 		}
 	}
-	served := n0 > 0 && verifrt.NondetRange("preTasksServed", 0, 1) == 1
+	served := n0 > 0 && (!o.answers || verifrt.NondetRange("preTasksServed", 0, 1) == 1)
 	if served {
 		tp, ts := zzvPopAll(e)
 		e.peerRequestQueue.TasksDone(tp, ts...)
@@ -265,7 +300,7 @@ func HarnessC36Intake() {
 
 	// ---- the message under test
 	m := verifrt.NondetRange("entries", 1, M)
-	m2 := &zzvMsg{full: verifrt.NondetBool("full")}
+	m2 := &zzvMsg{full: zzvBool("full", o.answers, false)}
 	var in2 [zzvN]zzvWant // the message's entry for pool[i]
 	var cancel2 [zzvN]bool
 	usedOld, usedNew := 0, n0
@@ -274,9 +309,13 @@ func HarnessC36Intake() {
 	for j := 0; j < m; j++ {
 		// which CID: 0 the next ledger CID not yet named, 1 the next new CID, 2 an identity CID, 3 an oversize
 		// CID (pool members are interchangeable: all their attributes are symbolic)
-		kind := verifrt.NondetRange("kind", 0, 3)
-		w := zzvNondetWant()
-		cancel := verifrt.NondetBool("cancel")
+		maxKind := 1
+		if o.answers {
+			maxKind = 3
+		}
+		kind := verifrt.NondetRange("kind", 0, maxKind)
+		w := zzvNondetWant(o)
+		cancel := zzvBool("cancel", o.answers, false)
 		switch kind {
 		case 0:
 			if usedOld >= n0 {
@@ -338,6 +377,17 @@ func zzvCheckIntake(pool []cid.Cid, bs *zzvBS, permitted [zzvN]bool, limit, repl
 			eff[i] = in2[i]
 		}
 	}
+	// A message carrying more (permitted) wants than the per-peer limit is cut down to the limit in arrival order
+	// before any priority is looked at (splitWantsCancelsDenials); which of its wants survive is then not a
+	// matter of priority. For such messages only the bounds and the per-task conditions are claimed.
+	nW := 0
+	for i := range pool {
+		if want2[i] {
+			nW++
+		}
+	}
+	truncated := nW > limit
+	_ = nWants2
 	for i := range pool {
 		if cancel2[i] {
 			verifrt.Assert("C36.cancelled-want-removed", !fin[i].in)
@@ -349,7 +399,9 @@ func zzvCheckIntake(pool []cid.Cid, bs *zzvBS, permitted [zzvN]bool, limit, repl
 			continue
 		}
 		if want2[i] {
-			verifrt.Assert("C36.ledger-entry-matches-latest-want", fin[i].prio == in2[i].prio && fin[i].block == in2[i].block)
+			if !truncated || !old[i] {
+				verifrt.Assert("C36.ledger-entry-matches-latest-want", fin[i].prio == in2[i].prio && fin[i].block == in2[i].block)
+			}
 		} else {
 			verifrt.Assert("C36.full-wantlist-replaces-ledger", !(full && pre[i].in))
 			verifrt.Assert("C36.ledger-entry-was-requested", old[i])
@@ -362,6 +414,7 @@ func zzvCheckIntake(pool []cid.Cid, bs *zzvBS, permitted [zzvN]bool, limit, repl
 	var evicted, accepted, rejected, kept [zzvN]bool
 	for i := range pool {
 		switch {
+		case truncated:
 		case old[i] && !fin[i].in && !cancel2[i]:
 			evicted[i] = true
 			nEvicted++
@@ -409,16 +462,19 @@ func zzvCheckIntake(pool []cid.Cid, bs *zzvBS, permitted [zzvN]bool, limit, repl
 			verifrt.Assert("C36.evicted-only-for-not-lower-priority-newcomer", beaten)
 		}
 	}
-	if nWants2 <= limit { // (a message with more wants than the limit is truncated before any priority is looked at)
-		for r := range pool {
-			if !rejected[r] {
+	for r := range pool {
+		if !rejected[r] {
+			continue
+		}
+		for k := range pool {
+			if !kept[k] {
 				continue
 			}
-			for k := range pool {
-				if !kept[k] {
-					continue
-				}
-				verifrt.Assert("C36.blockless-want-kept-while-newcomer-rejected", bs.present[k])
+			// a want that stayed must have a local block, and must not have a lower priority than a turned-away
+			// newcomer that has a local block too (a newcomer without a block is itself first in line to go)
+			if !bs.present[k] {
+				verifrt.Assert("C36.blockless-want-kept-while-newcomer-rejected", !bs.present[r] && eff[r].prio <= eff[k].prio)
+			} else if bs.present[r] {
 				verifrt.Assert("C36.lower-priority-want-kept-while-newcomer-rejected", eff[r].prio <= eff[k].prio)
 			}
 		}
@@ -441,27 +497,32 @@ func zzvCheckIntake(pool []cid.Cid, bs *zzvBS, permitted [zzvN]bool, limit, repl
 		if in2[i].in && !cancel2[i] {
 			src = in2[i]
 		}
+		// the peer asked for it (earlier or in this message) ...
+		verifrt.Assert("C36.task-only-for-requested-cid", pre[i].in || (in2[i].in && !cancel2[i]))
+		// ... and did not drop it since by sending a full want-list without it
+		verifrt.Assert("C36.no-task-for-want-replaced-by-full-wantlist", !(full && pre[i].in && !(in2[i].in && !cancel2[i])))
+		// ... or by cancelling it
 		verifrt.Assert("C36.cancelled-want-has-no-task", !cancel2[i])
+		pending := !served && pre[i].in // the pre-state's task for this CID may still be queued (tasks merge)
 		if td.HaveBlock {
 			haveTask[i] = true
 			verifrt.Assert("C36.have-or-block-only-for-present-block", bs.present[i])
 			verifrt.Assert("C36.have-or-block-only-for-permitted-cid", permitted[i])
-			verifrt.Assert("C36.have-or-block-only-for-current-want", fin[i].in)
 			verifrt.Assert("C36.task-size-matches-block", td.BlockSize == bs.size[i])
 			if td.IsWantBlock {
-				verifrt.Assert("C36.block-only-for-want-block-or-small-block", src.block || bs.size[i] <= replace)
+				verifrt.Assert("C36.block-only-for-want-block-or-small-block", src.block || bs.size[i] <= replace || (pending && pre[i].block))
 			} else {
 				verifrt.Assert("C36.want-block-answered-with-block", !src.block)
 			}
 		} else {
 			dhTask[i] = true
 			verifrt.Assert("C36.dont-have-only-for-absent-or-denied", !bs.present[i] || !permitted[i])
-			verifrt.Assert("C36.dont-have-only-when-asked", src.sendDH && td.SendDontHave)
+			verifrt.Assert("C36.dont-have-only-when-asked", td.SendDontHave && (src.sendDH || (pending && pre[i].sendDH)))
 			verifrt.Assert("C36.dont-have-only-when-enabled", sendDHs)
 		}
 	}
 	// every accepted want of this message is answered (a task is queued) — unless the queue bound cut it
-	if len(tasks) < limit {
+	if len(tasks) < limit && !truncated {
 		for i := range pool {
 			if !(want2[i] && fin[i].in) {
 				continue
